@@ -262,7 +262,16 @@ def c33 (cfg : Cl.Cfg) (tr : List CE) (tEnd : Nat) : List Viol :=
   let userPings : List Nat := tr.filterMap fun e => match e with
     | .api t _ .ping => some t
     | _ => none
-  let isUserRetry := fun (t : Nat) => userPings.any fun tc => t > tc && (t - tc) % cfg.rd == 0 && t - tc ≤ cfg.rc * cfg.rd
+  -- every PINGREQ without a client ID that went out (the application's, the keep-alive's, retransmissions)
+  let allPings : List Nat := tr.filterMap fun e => match e with
+    | .out t (.sn b) => if pktOf b == some (.pingreq []) then some t else none
+    | _ => none
+  -- there is one PINGREQ exchange at a time: a Ping() of the application while an exchange is in progress
+  -- joins it, and from then on it is the application's (not stopped with the keep-alive); its
+  -- retransmissions are counted from the start of the exchange it joined
+  let isUserRetry := fun (t : Nat) => userPings.any fun tc =>
+    let bases := tc :: (allPings.filter fun tk => tk ≤ tc && tc ≤ tk + (cfg.rc + 1) * cfg.rd)
+    bases.any fun b => t > b && t ≥ tc && (t - b) % cfg.rd == 0 && t - b ≤ cfg.rc * cfg.rd
   let kaPings : List Nat := tr.filterMap fun e => match e with
     -- (a PINGREQ at the instant of a Ping() call is the application's; one sent at the instant a late PINGRESP
     -- arrives is the keep-alive's: the tick that fell into the outstanding exchange is served at once)
@@ -270,7 +279,14 @@ def c33 (cfg : Cl.Cfg) (tr : List CE) (tEnd : Nat) : List Viol :=
     | _ => none
   -- an unanswered ping exchange ends the client: from then on nothing is due
   let pingresps : List Nat := (snIns tr).filterMap fun (t, p) => if p == .pingresp then some t else none
-  let deadFrom : Nat := ((kaPings.filterMap fun t =>
+  -- (an exchange of the application which a keep-alive tick has joined ends the client in the same way when
+  -- it is never answered: where the trace shows that the client did end, an unanswered exchange of the
+  -- application counts too)
+  let clientEnded := (doneAt tr).isSome
+  -- (a keep-alive tick that joined the exchange shows as a PINGREQ of its own inside it)
+  let joinedByKeepalive := fun (tu : Nat) => kaPings.any fun tk => tk > tu && tk < tu + (cfg.rc + 1) * cfg.rd
+  let exchangeStarts : List Nat := kaPings ++ (userPings.filter fun tu => allPings.contains tu && (clientEnded || joinedByKeepalive tu))
+  let deadFrom : Nat := ((exchangeStarts.filterMap fun t =>
       let lim := t + (cfg.rc + 1) * cfg.rd
       -- (an exchange stopped because the client left `active` meanwhile does not end the client)
       if pingresps.any (fun tp => tp > t && tp ≤ lim) || states.any (fun (ts, s) => ts > t && ts ≤ lim && s != .active)
@@ -302,7 +318,9 @@ def c33 (cfg : Cl.Cfg) (tr : List CE) (tEnd : Nat) : List Viol :=
       if s1 == .active then some (t1, min t2 dn) else none
   let v2 := activeSpans.flatMap fun (a, b) =>
     -- every window [x, x + period + slack] inside the span contains a ping: check gaps between consecutive pings
-    let ps := a :: (kaPings.filter fun t => t > a && t ≤ b)
+    -- (any PINGREQ tells the gateway that the client is alive: a keep-alive tick that finds an exchange of the
+    -- application in progress joins it instead of sending another PINGREQ)
+    let ps := a :: (allPings.filter fun t => t > a && t ≤ b)
     let gaps := (ps.zip (ps.drop 1 ++ [b]))
     gaps.flatMap fun (x, y) =>
       if y > x + period + 50 then
